@@ -447,12 +447,16 @@ def sampler_class(name):
 
 
 def run_smc(cfg: dict, ids: IdTable | None = None, resume_from=None, role="single",
-            choice_script=None) -> dict:
-    """Execute one real SMC run and return the raw run record."""
+            choice_script=None, reuse=None) -> dict:
+    """Execute one real SMC run and return the raw run record.
+    reuse: the record of an earlier run - the *same sampler object* is used for another sample() call
+    (its user functions keep pointing at the earlier tracer, whose event log is restarted)."""
     c = dict(DEFAULT)
     c.update(cfg)
     ids = ids or IdTable()
     xp = get_xp(c["ns"])
+    if reuse is not None:
+        return _rerun(c, reuse, role)
     prob = Problem(c["dims"], c["width"], c["center"], cut=c.get("cut"))
     prob.recipe = bool(c["recipe"])
     tr = Tracer(prob, ids, fault_k=c["fault_k"], recipe=c["recipe"], file_path=c["path"])
@@ -485,25 +489,7 @@ def run_smc(cfg: dict, ids: IdTable | None = None, resume_from=None, role="singl
                   preconditioning_transform=make_precond(c, xp), **init_kw)
     if "rng" not in init_params and hasattr(sampler, "rng"):
         sampler.rng = urng      # no constructor / call parameter: the attribute is the only way in
-    sp = inspect.signature(sampler.sample).parameters
-    if c["rng_route"] == "sample" and "rng" in sp:
-        sample_kw["rng"] = urng
-    for k_cfg, k_arg in (("n_steps", "n_steps"), ("min_step", "min_step"), ("max_n_steps", "max_n_steps"),
-                         ("n_final", "n_final_samples")):
-        if c[k_cfg] is not None and k_arg in sp:
-            sample_kw[k_arg] = c[k_cfg]
-    sample_kw["adaptive"] = c["adaptive"]
-    sample_kw["target_efficiency"] = c["target"]
-    sample_kw["target_efficiency_rate"] = c["rate"]
-    skw = {}
-    if c["sampler"] == "minipcn_smc":
-        skw["n_steps"] = c["mcmc_steps"]
-    else:
-        skw["nsteps"] = c["mcmc_steps"]
-        skw["progress"] = False
-    if c["n_final_steps"] is not None:
-        skw["n_final_steps"] = c["n_final_steps"]
-    sample_kw["sampler_kwargs"] = skw
+    sample_kw = _sample_kwargs(c, sampler, urng)
 
     def cb(state):
         # the payload as the library produced it
@@ -559,9 +545,115 @@ def run_smc(cfg: dict, ids: IdTable | None = None, resume_from=None, role="singl
         verifflow_mod.OBSERVER = None
     if c["path"] is not None and status != "ok":
         tr.ev.append({"t": "filecheck", "file": read_file_state(c["path"], ids)})
-    return {"cfg": c, "role": role, "status": status, "exc": exc, "tracer": tr, "sampler": sampler,
+    import copy as _copy
+    return {"cfg": c, "role": role, "status": status, "exc": exc, "tracer": _freeze_tracer(tr), "sampler": sampler,
             "result": result, "urng": urng, "flow": flow, "prob": prob, "ids": ids,
-            "orng_created": len(orng_stub.CREATED), "resumed": resume_from is not None}
+            "orng_created": len(orng_stub.CREATED), "resumed": resume_from is not None,
+            "hist": _copy.deepcopy(getattr(sampler, "history", None)),
+            "nlike_total": int(sampler.n_likelihood_evaluations)}
+
+
+class _FrozenTracer:
+    """the observations of one finished run (the live tracer may be restarted by a later run on the
+    same sampler object)"""
+
+    def __init__(self, tr):
+        self.ev = list(tr.ev)
+        self.k, self.kp = tr.k, tr.kp
+        self.payloads = list(tr.payloads)
+        self.live = tr
+
+
+def _freeze_tracer(tr):
+    return _FrozenTracer(tr)
+
+
+def _sample_kwargs(c, sampler, urng):
+    import inspect
+    sample_kw = {}
+    sp = inspect.signature(sampler.sample).parameters
+    if c["rng_route"] == "sample" and "rng" in sp:
+        sample_kw["rng"] = urng
+    for k_cfg, k_arg in (("n_steps", "n_steps"), ("min_step", "min_step"), ("max_n_steps", "max_n_steps"),
+                         ("n_final", "n_final_samples")):
+        if c[k_cfg] is not None and k_arg in sp:
+            sample_kw[k_arg] = c[k_cfg]
+    sample_kw["adaptive"] = c["adaptive"]
+    sample_kw["target_efficiency"] = c["target"]
+    sample_kw["target_efficiency_rate"] = c["rate"]
+    skw = {}
+    if c["sampler"] == "minipcn_smc":
+        skw["n_steps"] = c["mcmc_steps"]
+    else:
+        skw["nsteps"] = c["mcmc_steps"]
+        skw["progress"] = False
+    if c["n_final_steps"] is not None:
+        skw["n_final_steps"] = c["n_final_steps"]
+    sample_kw["sampler_kwargs"] = skw
+    return sample_kw
+
+
+def _rerun(c, prev, role):
+    """another sample() call on the sampler object of `prev` (no resume): a fresh run as far as the
+    property is concerned."""
+    tr: Tracer = prev["tracer"].live if hasattr(prev["tracer"], "live") else prev["tracer"]
+    sampler = prev["sampler"]
+    ids = prev["ids"]
+    tr.ev = []
+    tr.k = tr.kp = 0
+    tr.payloads = []
+    tr.fault_k = c["fault_k"]
+    tr.in_kernel = False
+    n0 = int(sampler.n_likelihood_evaluations)
+    minipcn_stub.reset(); emcee_stub.reset()
+    minipcn_stub.OBSERVER = tr.kernel_event
+    emcee_stub.OBSERVER = tr.kernel_event
+    minipcn_stub.MAX_SAMPLE_CALLS = emcee_stub.MAX_SAMPLE_CALLS = c["budget"]
+    verifflow_mod.OBSERVER = tr.flow_event
+    orng_stub.CREATED.clear()
+    urng = LoggingRNG(np.random.default_rng(c["seed"]), tr)
+    if hasattr(sampler, "rng") and c["rng_route"] != "sample":
+        sampler.rng = urng
+    sample_kw = _sample_kwargs(c, sampler, urng)
+    prob, flow = prev["prob"], prev["flow"]
+
+    def cb(state):
+        blob = sampler.serialize_checkpoint(state)
+        tr.payloads.append(blob)
+        e = {"t": "ckpt", "iter": int(state.get("iteration") or 0),
+             "_beta": float(state.get("meta", {}).get("beta", float("nan"))),
+             "pop": ids.of(state["samples"].x), "size": int(len(state["samples"])),
+             "bytes": ids.of_bytes(blob), "_state": state}
+        Hs = state.get("history")
+        pop = popdict(state["samples"])
+        e["_snap"] = {"coh": coherent(pop, prob, flow, 32 if c["dtype"] == "float32" else 64),
+                      "width": pop["width"], "has_rng": state.get("rng_state") is not None, "keys": sorted(state.keys()),
+                      "lens": _series_len(Hs) if Hs is not None else {},
+                      "hbetas": [float(x) for x in Hs.beta] if Hs is not None else [],
+                      "hpops": [ids.of(q.x) for q in Hs.sample_history] if Hs is not None else []}
+        tr.ev.append(e)
+    if c["every"] is not None:
+        sample_kw["checkpoint_callback"] = cb
+        sample_kw["checkpoint_every"] = c["every"]
+    status, exc, result = "ok", "", None
+    try:
+        result = sampler.sample(c["N"], **sample_kw)
+    except InjectedFault as ex:
+        status, exc = "fault", str(ex)
+    except (minipcn_stub.KernelBudgetExceeded, emcee_stub.KernelBudgetExceeded):
+        status = "truncated"
+    except Exception as ex:
+        status, exc = "raised", f"{type(ex).__name__}: {ex}"
+    finally:
+        minipcn_stub.OBSERVER = None
+        emcee_stub.OBSERVER = None
+        verifflow_mod.OBSERVER = None
+    import copy as _copy
+    return {"cfg": c, "role": role, "status": status, "exc": exc, "tracer": _freeze_tracer(tr), "sampler": sampler,
+            "result": result, "urng": urng, "flow": flow, "prob": prob, "ids": ids,
+            "orng_created": len(orng_stub.CREATED), "resumed": False, "nlike_offset": n0,
+            "hist": _copy.deepcopy(getattr(sampler, "history", None)),
+            "nlike_total": int(sampler.n_likelihood_evaluations)}
 
 
 def run_aspire(cfg: dict, ids: IdTable | None = None, role="single", resume_file=None,
@@ -667,7 +759,7 @@ def project_group(gid: str, runs: list[dict], kind="smc_group") -> dict:
     # --- rank table over all temperatures seen in the group
     vals = {0.0, 1.0}
     for r in runs:
-        H = getattr(r["sampler"], "history", None)
+        H = r["hist"] if "hist" in r else getattr(r["sampler"], "history", None)
         if H is not None:
             vals.update(float(b) for b in H.beta)
         for e in r["tracer"].ev:
@@ -713,7 +805,7 @@ def _project_run(r, rank) -> dict:
     ids = r["ids"]
     S = r["sampler"]
     prob, flow = r["prob"], r["flow"]
-    H = getattr(S, "history", None)
+    H = r["hist"] if "hist" in r else getattr(S, "history", None)
     urng = r["urng"]
     margin = _rel_margin(32 if c["dtype"] == "float32" else 64)
 
@@ -760,6 +852,7 @@ def _project_run(r, rank) -> dict:
     out = {"role": r["role"], "status": r["status"], "exc": r["exc"][:200], "ev": evs,
            "rcfg": {"every": (c["every"] or (1 if r.get("via") == "aspire" and c["path"] else 0)),
                     "ckpt_events": r.get("via") != "aspire",
+                    "adaptive": bool(c["adaptive"]), "n_steps": c["n_steps"] or 0,
                     "n_final": c["n_final"] or 0,
                     "max_n_steps": c["max_n_steps"] or 0, "has_path": c["path"] is not None},
            "resumed": bool(r["resumed"]), "orng_created": int(r["orng_created"]),
@@ -827,7 +920,7 @@ def _project_ckpt(e, rank, prob, flow, ids, req_width=64):
 def _project_final(r, rank, hist_pops, hist_ids, betas, margin):
     c = r["cfg"]
     S = r["sampler"]
-    H = S.history
+    H = r["hist"] if r.get("hist") is not None else S.history
     res = r["result"]
     ids = r["ids"]
     prob, flow = r["prob"], r["flow"]
@@ -840,7 +933,7 @@ def _project_final(r, rank, hist_pops, hist_ids, betas, margin):
            "betas": [rank[b] for b in betas],
            "in_unit": [bool(0.0 < b <= 1.0) for b in betas],
            "pops": hist_ids, "sizes": [int(len(p["x"])) for p in hist_pops],
-           "lens": _series_len(H), "nlike": int(S.n_likelihood_evaluations),
+           "lens": _series_len(H), "nlike": int(r.get("nlike_total", S.n_likelihood_evaluations)) - int(r.get("nlike_offset", 0)),
            "widths": sorted({p["width"] for p in hist_pops} | {width_of(res.x)}),
            "res_width": width_of(res.x), "res_ns": ns_of(res.x),
            "res_pop": ids.of(res.x)}
